@@ -1,5 +1,7 @@
 ---------------------------- MODULE MC_Vectorised ----------------------------
 EXTENDS Vectorised
 Emit(S) == ndJsonSerialize(IOEnv.OUT_FILE, SetToSeq(S)) /\ (TRUE \/ phase = "")
-EmitAll == Emit({ [op |-> p, arr |-> a] : p \in TwinPairs, a \in Arrangements })
+(* the non-default forms are exercised on the short arrangements only *)
+EmitAll == Emit({ [op |-> p, arr |-> a, form |-> "float"] : p \in TwinPairs, a \in Arrangements }
+                \cup { [op |-> p, arr |-> a, form |-> f] : p \in MetricPairs \cup EstimatorPairs \cup ConversionPairs, a \in { x \in Arrangements : Len(x) <= 2 }, f \in Forms \ {"float"} })
 =============================================================================
